@@ -141,6 +141,20 @@ package lua
 //@ ensures  keptExcept(L, lb(L) + opA(inst), lb(L) + opA(inst) + 1)
 //@ modifies L.reg.array, L.reg.top, L.reg.array[*]
 
+// OP_MOVEN A B C: R(A) := R(B), then C further moves whose operands are the A and B fields of the C code words that follow
+// (a run of MOVE instructions merged by the peephole pass); pc skips those words. Proved: no implicit panic under operand
+// validity, pc, for C == 0 exactly OP_MOVE, and in general only registers of the frame are written (the composition of the
+// C+1 sequential moves is not characterised)
+//@ func jumpTable[OP_MOVEN] [C01 C07]
+//@ requires Frame(L) && opA(inst) < nreg(L) && opB(inst) < nreg(L) && lb(L) + nreg(L) <= top(L) && pc(L) + opC(inst) <= len(code(L)) && (forall k int :: 0 <= k && k < opC(inst) ==> opA(code(L)[pc(L) + k]) < nreg(L) && opB(code(L)[pc(L) + k]) < nreg(L))
+//@ noraise
+//@ ensures  result == 0 && L.currentFrame == old(L.currentFrame) && pc(L) == old(pc(L)) + opC(inst) && top(L) == old(top(L)) && L.reg == old(L.reg)
+//@ ensures  "only-the-frame-is-written": forall k int :: 0 <= k && k < old(top(L)) && !(lb(L) <= k && k < lb(L) + nreg(L)) ==> L.reg.array[k] == old(L.reg.array[k])
+//@ ensures  "a-single-move": opC(inst) == 0 ==> R(L, opA(inst)) == old(R(L, opB(inst))) && (forall k int :: 0 <= k && k < old(top(L)) && k != lb(L) + opA(inst) ==> L.reg.array[k] == old(L.reg.array[k]))
+//@ modifies L.reg.array[*], L.currentFrame.Pc
+//@ loop 1 invariant 0 <= i && i <= C && C == opC(inst) && pc == old(pc(L)) + i && cf == old(L.currentFrame) && L.currentFrame == cf && cf.Pc == old(pc(L)) && reg == L.reg && L.reg == old(L.reg) && Inv_reg(reg) && lbase == old(lb(L)) && arrid(reg.array) == old(arrid(L.reg.array)) && reg.top == old(top(L)) && arrid(code) == old(arrid(code(L))) && offset(code) == 0 && len(code) == old(len(code(L))) && cf.Fn == old(L.currentFrame.Fn)
+//@ loop 1 invariant (forall k int :: 0 <= k && k < old(top(L)) && !(lbase <= k && k < lbase + old(nreg(L))) ==> reg.array[k] == old(L.reg.array[k])) && (i == 0 ==> reg.array[lbase + opA(inst)] == old(R(L, opB(inst))) && (forall k int :: 0 <= k && k < old(top(L)) && k != lbase + opA(inst) ==> reg.array[k] == old(L.reg.array[k])))
+
 //@ func jumpTable[OP_LOADK] [C01 C07]
 //@ requires Frame(L) && opA(inst) < nreg(L) && opBx(inst) < len(konst(L))
 //@ noraise
@@ -420,7 +434,7 @@ package lua
 //@ requires L.currentFrame.LocalBase - L.currentFrame.ReturnBase >= 0 && L.currentFrame.LocalBase - L.currentFrame.ReturnBase <= L.reg.top - min(nargs, top(L) - base(L))
 //@ raises when L.Parent == nil || top(L.Parent) + 1 + nargs > cap(L.Parent.reg.array)
 //@ ensures  "returns-only-with-a-resumer": old(L.Parent) != nil
-//@ ensures  "switch": L.G.CurrentThread == old(L.Parent) && L.Parent == nil && (kill ==> L.Dead) && (!kill ==> L.Dead == old(L.Dead))
+//@ ensures  "switch": L.G == old(L.G) && L.G.CurrentThread == old(L.Parent) && L.Parent == nil && (kill ==> L.Dead) && (!kill ==> L.Dead == old(L.Dead))
 //@ ensures  "flag": !old(L.wrapped) ==> old(L.Parent).reg.array[old(top(L.Parent))] == ite(haserror, LFalse, LTrue)
 //@ ensures  "count": top(old(L.Parent)) == old(top(L.Parent) + ite(L.wrapped, 0, 1) + xm(L, nargs))
 //@ ensures  "values": forall k int :: old(top(L.Parent) + ite(L.wrapped, 0, 1)) <= k && k < top(old(L.Parent)) ==> old(L.Parent).reg.array[k] == old(L.reg.array[top(L) - xm(L, nargs) + k - top(L.Parent) - ite(L.wrapped, 0, 1)])
@@ -430,7 +444,12 @@ package lua
 
 // OP_RETURN: thin contract (no implicit Go panic; the inlined closeUpvalues and copyReturnValues/CopyRange/FillNil
 // copies satisfy the contracts of their source functions: results land at ReturnBase, padded or truncated to NRet).
-//@ func jumpTable[OP_RETURN] [C02 C03 C07 C10]
+// C06: a return from the body of a coroutine (the only frame of a resumed thread) hands the results to the resumer, which becomes
+// the current thread again, and the coroutine is dead; no other return switches threads
+//@ func jumpTable[OP_RETURN] [C02 C03 C06 C07 C10]
+//@ ensures  "return-from-the-body-ends-the-coroutine": old(L.Parent != nil && $sp(L.stack) == 1) ==> result == 1 && L.Dead && old(L.G).CurrentThread == old(L.Parent) && L.Parent == nil
+//@ ensures  "no-other-return-switches-threads": !old(L.Parent != nil && $sp(L.stack) == 1) ==> old(L.G).CurrentThread == old(L.G.CurrentThread) && L.Dead == old(L.Dead)
+//@ raises when true
 //@ requires Frame(L) && L.stack != nil && $inv(L.stack) && $sp(L.stack) >= 1 && regsValid(L) && opA(inst) < nreg(L) && uvsValid(L)
 //@ requires opB(inst) > 1 ==> lb(L) + opA(inst) + opB(inst) - 1 <= top(L)
 //@ requires opB(inst) == 0 ==> lb(L) + opA(inst) <= top(L)
@@ -665,7 +684,11 @@ package lua
 // findUpvalue(idx): the open upvalue for register idx - THE existing one if the list has it (closures created in one
 // activation share it), else a fresh one inserted in order; no other element changes.
 //@ func (*LState).findUpvalue [C03]
-//@ requires ls != nil && Inv_uvlist(ls) && idx >= 0
+// the open-upvalue list is sorted by register and holds open upvalues of this thread: a system invariant of the list (kept by
+// findUpvalue and closeUpvalues, its only writers), assumed at entry and not asked of callers - the list predicate is evaluated
+// against the entry heap of the function under verification, so a caller that calls findUpvalue twice could not restate it
+//@ entry-assumes Inv_uvlist(ls)
+//@ requires ls != nil && idx >= 0
 //@ noraise
 //@ ensures  result != nil && !result.closed && result.index == idx && result.reg == ls.reg
 //@ ensures  "shared": forall u *Upvalue :: old(inList(ls.uvcache, u)) && u.index == idx ==> result == u
@@ -697,6 +720,27 @@ package lua
 //@ ensures  old(upvals(L)[opB(inst)].closed || upvals(L)[opB(inst)].reg == nil) ==> old(upvals(L)[opB(inst)]).value == old(R(L, opA(inst)))
 //@ ensures  old(!upvals(L)[opB(inst)].closed && upvals(L)[opB(inst)].reg != nil) ==> L.reg.array[old(upvals(L)[opB(inst)].index)] == old(R(L, opA(inst))) && top(L) == old(top(L)) && (forall k int :: 0 <= k && k < top(L) && k != old(upvals(L)[opB(inst)].index) ==> L.reg.array[k] == old(L.reg.array[k]))
 //@ modifies type Upvalue.value, type registry.array, type registry.top, elems(LValue)
+
+// OP_CLOSURE A Bx: R(A) := a new closure of the Bx-th nested prototype with the environment of the running function; the
+// NumUpvalues pseudo-instructions that follow say where each captured variable comes from: MOVE 0 B - local register B of the
+// running activation, captured through THE open upvalue of that register (findUpvalue: shared with every other closure over
+// it) -, GETUPVAL 0 B - upvalue B of the running function itself. pc skips the pseudo-instructions.
+//@ define clProto(L *LState, inst uint32) *FunctionProto = L.currentFrame.Fn.Proto.FunctionPrototypes[opBx(inst)]
+//@ func jumpTable[OP_CLOSURE] [C01 C03 C07]
+//@ requires Frame(L) && opA(inst) < nreg(L) && lb(L) + nreg(L) <= top(L) && offset(L.currentFrame.Fn.Proto.FunctionPrototypes) == 0 && opBx(inst) < len(L.currentFrame.Fn.Proto.FunctionPrototypes) && clProto(L, inst) != nil && offset(L.currentFrame.Fn.Upvalues) == 0
+// validity of the pseudo-instructions (what the compiler emits behind OP_CLOSURE)
+//@ requires pc(L) + clProto(L, inst).NumUpvalues <= len(code(L)) && (forall k int :: 0 <= k && k < clProto(L, inst).NumUpvalues && opOp(code(L)[pc(L) + k]) == OP_GETUPVAL ==> opB(code(L)[pc(L) + k]) < len(L.currentFrame.Fn.Upvalues))
+//@ noraise
+//@ ensures  result == 0 && L.currentFrame == old(L.currentFrame) && pc(L) == old(pc(L) + clProto(L, inst).NumUpvalues) && isFn(R(L, opA(inst))) && fresh(fn(R(L, opA(inst)))) && !fn(R(L, opA(inst))).IsG && fn(R(L, opA(inst))).Proto == old(clProto(L, inst)) && fn(R(L, opA(inst))).Env == old(L.currentFrame.Fn.Env) && len(fn(R(L, opA(inst))).Upvalues) == old(clProto(L, inst).NumUpvalues)
+//@ ensures  "upvalue-of-the-running-function-is-passed-on": forall k int :: 0 <= k && k < old(clProto(L, inst).NumUpvalues) && old(opOp(code(L)[pc(L) + k])) == OP_GETUPVAL ==> fn(R(L, opA(inst))).Upvalues[k] == old(L.currentFrame.Fn.Upvalues[opB(code(L)[pc(L) + k])])
+//@ ensures  "local-is-captured-through-an-open-upvalue-of-its-register": forall k int :: 0 <= k && k < old(clProto(L, inst).NumUpvalues) && old(opOp(code(L)[pc(L) + k])) == OP_MOVE ==> fn(R(L, opA(inst))).Upvalues[k] != nil && !fn(R(L, opA(inst))).Upvalues[k].closed && fn(R(L, opA(inst))).Upvalues[k].reg == L.reg && fn(R(L, opA(inst))).Upvalues[k].index == old(lb(L) + opB(code(L)[pc(L) + k]))
+//@ ensures  top(L) == old(top(L)) && (forall k int :: 0 <= k && k < old(top(L)) && k != lb(L) + opA(inst) ==> L.reg.array[k] == old(L.reg.array[k]))
+//@ modifies L.reg.array[*], L.currentFrame.Pc, L.uvcache, type Upvalue.next
+//@ loop 1 invariant 0 <= i && i <= proto.NumUpvalues && proto == old(clProto(L, inst)) && cf == old(L.currentFrame) && L.currentFrame == cf && L.reg == old(L.reg) && reg == L.reg && cf.Pc == old(pc(L)) + i && closure != nil && fresh(closure) && fresh(closure.Upvalues) && offset(closure.Upvalues) == 0 && len(closure.Upvalues) == proto.NumUpvalues && lbase == old(lb(L)) && RA == lbase + opA(inst) && cf.Fn == old(L.currentFrame.Fn) && !closure.IsG && closure.Proto == proto && closure.Env == old(L.currentFrame.Fn.Env)
+//@ loop 1 invariant Inv_reg(L.reg) && arrid(L.reg.array) == old(arrid(L.reg.array)) && top(L) == old(top(L)) && L.reg.array[RA] == mkFn(closure) && (forall k int :: 0 <= k && k < old(top(L)) && k != RA ==> L.reg.array[k] == old(L.reg.array[k]))
+//@ loop 1 invariant arrid(cf.Fn.Upvalues) == old(arrid(L.currentFrame.Fn.Upvalues)) && len(cf.Fn.Upvalues) == old(len(L.currentFrame.Fn.Upvalues)) && arrid(cf.Fn.Upvalues) != arrid(closure.Upvalues) && (forall j int :: 0 <= j && j < len(cf.Fn.Upvalues) ==> cf.Fn.Upvalues[j] == old(L.currentFrame.Fn.Upvalues[j]))
+//@ loop 1 invariant forall k int :: 0 <= k && k < i && old(opOp(code(L)[pc(L) + k])) == OP_GETUPVAL ==> closure.Upvalues[k] == cf.Fn.Upvalues[old(opB(code(L)[pc(L) + k]))]
+//@ loop 1 invariant forall k int :: 0 <= k && k < i && old(opOp(code(L)[pc(L) + k])) == OP_MOVE ==> closure.Upvalues[k] != nil && !closure.Upvalues[k].closed && closure.Upvalues[k].reg == L.reg && closure.Upvalues[k].index == old(lb(L) + opB(code(L)[pc(L) + k]))
 
 // OP_CLOSE: thin (the inlined closeUpvalues copy is checked against closeUpvalues' contract)
 //@ func jumpTable[OP_CLOSE] [C03 C07]
@@ -840,6 +884,18 @@ package lua
 //@ ensures  "ends": !old(forGoesOn(L, opA(inst))) ==> pc(L) == old(pc(L)) && top(L) == lb(L) + opA(inst) + 1 && (forall k int :: 0 <= k && k < lb(L) + opA(inst) ==> L.reg.array[k] == old(L.reg.array[k]))
 //@ modifies L.reg.array, L.reg.top, L.reg.array[*], L.currentFrame.Pc, type allocator.*, type iface.*, elems(float64)
 
+// OP_TFORLOOP A C (generic for): R(A+3), ..., R(A+2+C) := R(A)(R(A+1), R(A+2)); if R(A+3) ~= nil then R(A+2) := R(A+3) and
+// the jump word that follows is taken, else it is skipped. Proved: the iterator function, the state and the control value are
+// copied above the hidden variables in that order and called with 2 arguments for C results at R(A+3) (through callR); the
+// control variable is updated from the first result exactly when it is not nil; pc effect.
+//@ func jumpTable[OP_TFORLOOP] [C01 C07]
+//@ requires Frame(L) && opA(inst) + 3 < nreg(L) && lb(L) + nreg(L) <= top(L) && pc(L) < len(code(L)) && L.stack != nil && $inv(L.stack) && L.G != nil && regsValid(L) && opC(inst) >= 1 && valOK(R(L, opA(inst))) && valOK(R(L, opA(inst) + 1)) && valOK(R(L, opA(inst) + 2))
+//@ assert@"L.callR(2, nret, RA+3)" top(L) == RA + 6 && L.reg.array[RA + 3] == old(R(L, opA(inst))) && L.reg.array[RA + 4] == old(R(L, opA(inst) + 1)) && L.reg.array[RA + 5] == old(R(L, opA(inst) + 2)) && (forall k int :: 0 <= k && k < RA + 3 ==> L.reg.array[k] == old(L.reg.array[k]))
+//@ ensures  "iterator-called-with-state-and-control-for-C-results": result == 0 && ncalls() == old(ncalls()) + 1 && callfn(old(ncalls())) == fnid("(*LState).callR") && callargInt(old(ncalls()), 1) == 2 && callargInt(old(ncalls()), 2) == opC(inst) && callargInt(old(ncalls()), 3) == old(lb(L)) + opA(inst) + 3
+//@ ensures  "goes-on-while-the-first-result-is-not-nil": L.currentFrame == old(L.currentFrame) && (R(L, opA(inst) + 3) != LNil ==> R(L, opA(inst) + 2) == R(L, opA(inst) + 3) && pc(L) == old(pc(L) + 1 + opSbx(code(L)[pc(L)]))) && (R(L, opA(inst) + 3) == LNil ==> pc(L) == old(pc(L)) + 1)
+//@ raises when true
+//@ modifies everything
+
 // OP_VARARG A B: R(A), ..., R(A+B-2) = vararg (B == 0: all of them, and top is set behind the last one). The variable
 // arguments of the activation are the values between the fixed parameters (Base + NumParameters + 1) and LocalBase, in
 // order; wanted values beyond them are nil.
@@ -889,8 +945,18 @@ package lua
 // resolved by metaCall; the frame gets THAT function, the slot's own value is what is handed to pushCallFrame as the called
 // object (so a __call handler receives the object it was called on as its first argument), arguments and result base as
 // given. The run of the new frame (mainLoop, a function-typed field) and the final SetTop are behind the cut.
-//@ func (*LState).callR [C02 C04 C10]
-//@ requires ls != nil && ls.reg != nil && Inv_reg(ls.reg) && ls.stack != nil && $inv(ls.stack) && ls.G != nil && MetaOK(ls) && protosOK() && fnsValid() && nargs >= 0 && ls.reg.top - nargs - 1 >= 0 && (forall k int :: ls.reg.top - nargs - 1 <= k && k < ls.reg.top ==> valOK(ls.reg.array[k]))
+//@ func (*LState).callR [C01 C02 C04 C10]
+//@ logged
+// what the run of the called frame leaves (behind the cut, assumed - the call discipline of (*LState).Call, without any claim
+// about the caller's registers: called Lua code may write them through upvalues): the frame, its header and the registry object
+// are the same, the code of the running prototype is the same (prototypes are never written after compilation), exactly nret
+// results lie at the result base, they are valid values
+//@ assumes ls.reg == old(ls.reg) && Inv_reg(ls.reg) && ls.currentFrame == old(ls.currentFrame) && ls.stack == old(ls.stack) && ls.G == old(ls.G) && (ls.currentFrame != nil ==> unchanged(ls.currentFrame) && (old(Frame(ls)) ==> Frame(ls) && ls.currentFrame.Fn.Proto == old(ls.currentFrame.Fn.Proto) && nreg(ls) == old(nreg(ls)) && arrid(code(ls)) == old(arrid(code(ls))) && len(code(ls)) == old(len(code(ls))) && (forall k int :: 0 <= k && k < len(code(ls)) ==> code(ls)[k] == old(code(ls)[k]))))
+//@ assumes nret >= 0 ==> top(ls) == ite(rbase < 0, old(top(ls)) - nargs - 1, rbase) + nret && (forall k int :: ite(rbase < 0, old(top(ls)) - nargs - 1, rbase) <= k && k < top(ls) ==> ls.reg.array[k] != nil)
+//@ requires ls != nil && ls.reg != nil && Inv_reg(ls.reg) && ls.stack != nil && $inv(ls.stack) && ls.G != nil && nargs >= 0 && ls.reg.top - nargs - 1 >= 0 && valOK(ls.reg.array[ls.reg.top - nargs - 1])
+// the global representation invariants (metatables, tables, prototypes, functions hold valid values) and the validity of the
+// ARGUMENT values are system invariants (A.3(8)): assumed at entry instead of being asked of each caller in quantified form
+//@ entry-assumes MetaOK(ls) && protosOK() && fnsValid() && (forall k int :: ls.reg.top - nargs - 1 <= k && k < ls.reg.top ==> valOK(ls.reg.array[k]))
 //@ assert@"if ls.G.MainThread == nil {" callfn(ncalls() - 1) == fnid("(*LState).pushCallFrame") && callargLV(ncalls() - 1, 2) == lv && lv == old(ls.reg.array[ls.reg.top - nargs - 1]) && ls.currentFrame != nil && (isFn(lv) ==> ls.currentFrame.Fn == fn(lv)) && (!isFn(lv) ==> mkFn(ls.currentFrame.Fn) == old(mtEvent(ls, ls.reg.array[ls.reg.top - nargs - 1], "__call")) && callargBool(ncalls() - 1, 3))
 //@ cut@"ls.mainLoop(ls" the interpreter loop (a function-typed field of the state) runs the frame; not verified here
 //@ raises when true
